@@ -34,15 +34,17 @@ type vxC18NegCase struct {
 	BodyLen    int      `json:"body_len"`
 	CompressResponses bool `json:"compress_responses"`
 	CompressReady     bool `json:"compress_ready,omitempty"` // the answer to STARTUP itself is compressed (as Cassandra does once STARTUP named an algorithm)
+	Stream0           bool `json:"stream0,omitempty"`        // the last request is answered with an ERROR on stream 0 (compressed like every response), as Cassandra reports protocol errors
 }
 
 func TestVxC18Negotiation(t *testing.T) {
 	vx.Check(t, vx.Prop{
 		ID: "C18", Part: "TestVxC18Negotiation",
-		Rule: "configured compressor {none, snappy, lz4(independent codec behind the Compressor interface)} x SUPPORTED COMPRESSION {key absent, [], [snappy], [lz4], [lz4,snappy], [other], [SNAPPY]} x protocol 1..5 x responses compressed or not (the READY / AUTHENTICATE answering STARTUP included or not); 1..6 queries with statements of 0..3000 bytes; oracle at the node (independent decoder): OPTIONS and STARTUP never flagged; STARTUP carries COMPRESSION=name iff configured and advertised; every later request is flagged and compressed iff that, and decodes; queries succeed; an EVENT frame pushed by the node (compressed when responses are) is read and leaves every connection open; non-trivial = a configured compressor that is not advertised, or several advertised; distinct by the case",
+		Rule: "configured compressor {none, snappy, lz4(independent codec behind the Compressor interface)} x SUPPORTED COMPRESSION {key absent, [], [snappy], [lz4], [lz4,snappy], [other], [SNAPPY]} x protocol 1..5 x responses compressed or not (the READY / AUTHENTICATE answering STARTUP included or not); 1..6 queries with statements of 0..3000 bytes; oracle at the node (independent decoder): OPTIONS and STARTUP never flagged; STARTUP carries COMPRESSION=name iff configured and advertised; every later request is flagged and compressed iff that, and decodes; queries succeed; an EVENT frame pushed by the node (compressed when responses are) is read and leaves every connection open; in half of the cases a last request is answered with an ERROR frame on stream 0 (compressed when responses are): the caller's error must carry the node's message; non-trivial = a configured compressor that is not advertised, or several advertised; distinct by the case",
 		Draw: func(t *rapid.T) interface{} {
 			c := &vxC18NegCase{Proto: rapid.IntRange(1, 5).Draw(t, "proto"), Configured: rapid.SampledFrom([]string{"", "snappy", "lz4"}).Draw(t, "conf"),
-				Queries: rapid.IntRange(1, 6).Draw(t, "q"), BodyLen: rapid.SampledFrom([]int{0, 10, 300, 3000}).Draw(t, "len"), CompressResponses: rapid.Bool().Draw(t, "cresp"), CompressReady: rapid.Bool().Draw(t, "cready")}
+				Queries: rapid.IntRange(1, 6).Draw(t, "q"), BodyLen: rapid.SampledFrom([]int{0, 10, 300, 3000}).Draw(t, "len"), CompressResponses: rapid.Bool().Draw(t, "cresp"), CompressReady: rapid.Bool().Draw(t, "cready"),
+				Stream0: rapid.Bool().Draw(t, "stream0")}
 			switch rapid.IntRange(0, 7).Draw(t, "adv") {
 			case 0:
 				c.NoKey = true
@@ -91,6 +93,14 @@ func TestVxC18Negotiation(t *testing.T) {
 				}
 			}
 			k.Class(fmt.Sprintf("configured=%s negotiated=%v", c.Configured, expect))
+			const boomMsg = "vx: invalid or unsupported protocol version reported on stream zero"
+			node.Handler = func(rc *vnode.ReqCtx) {
+				if rc.Req.Kind == "QUERY" && rc.Req.Statement == "BOOM" {
+					rc.Conn.Send(&cqlspec.Response{Kind: "ERROR", Version: c.Proto, Stream: 0, Code: cqlspec.ErrProtocol, Message: boomMsg})
+					return
+				}
+				rc.Reply(vxVoid())
+			}
 			if (c.Configured != "" && !expect) || len(c.Advertised) > 1 {
 				k.NonTrivial()
 			}
@@ -125,6 +135,22 @@ func TestVxC18Negotiation(t *testing.T) {
 				}
 				if expect && c.CompressResponses {
 					k.Class("compressed EVENT pushed")
+				}
+			}
+			if c.Stream0 {
+				// a server reports errors it cannot attribute to a request on stream 0; such a frame is a response
+				// like any other: compressed when responses are, and what it says must reach the caller
+				err := s.Query("BOOM").Exec()
+				if err == nil {
+					s.Close()
+					return fmt.Errorf("a request answered with an ERROR frame on stream 0 succeeded")
+				}
+				if !strings.Contains(err.Error(), boomMsg) {
+					s.Close()
+					return fmt.Errorf("the node reported %q in an ERROR frame on stream 0 (compression negotiated=%v, responses compressed=%v); the request in flight failed with %q, which does not say so", boomMsg, expect, c.CompressResponses, err.Error())
+				}
+				if expect && c.CompressResponses {
+					k.Class("compressed ERROR on stream 0")
 				}
 			}
 			s.Close()
